@@ -160,7 +160,9 @@ def dft_19_20(node: ir.Node, op):
     dft_length = node.inputs[1] if len(node.inputs) > 1 else None
     inverse = _get_int_attribute(node, "inverse", 0)
     onesided = _get_int_attribute(node, "onesided", 0)
-    axis = _get_int_attribute(node, "axis", None)
+    # Before opset 20 the (attribute) axis defaults to 1; the axis input of opset 20 defaults
+    # to -2, so the old default must be made explicit too.
+    axis = _get_int_attribute(node, "axis", 1)
     if axis is not None:
         axis_value = op.Constant(value_int=axis)
         return op.DFT(input, dft_length, axis_value, inverse=inverse, onesided=onesided)
